@@ -43,7 +43,11 @@ fn module(ctx: Arc<Ctx>) -> RpcModule<Arc<Ctx>> {
 pub fn run(nscen: usize, out_path: &str) {
 	let rt = tokio::runtime::Builder::new_multi_thread().worker_threads(4).enable_all().build().unwrap();
 	let mut outf = crate::common::Out::create(out_path);
+	let only: Option<usize> = std::env::var("VH_ONLY_SC").ok().and_then(|s| s.parse().ok());
 	for sc in 0..nscen {
+		if only.is_some_and(|o| o != sc) {
+			continue;
+		}
 		let mut rng = rng_for(sc, 10);
 		let evs = rt.block_on(scenario(&mut rng, sc));
 		for e in evs {
@@ -157,13 +161,24 @@ async fn scenario(rng: &mut StdRng, sc: usize) -> Vec<Value> {
 			}
 			loop {
 				let mut data = Vec::new();
-				match rx.receive_data(&mut data).await {
-					Ok(_) => {
+				match rx.receive(&mut data).await {
+					Ok(soketto::Incoming::Data(_)) => {
 						let v: Value = serde_json::from_slice(&data).unwrap_or(Value::Null);
 						t3.ev(json!({"ev": "Recv", "q": v["id"]}));
 					}
-					Err(_) => {
+					Ok(soketto::Incoming::Pong(_)) => {}
+					// the server's close frame: everything it wrote before has been read
+					Ok(soketto::Incoming::Closed(_)) => {
 						t3.ev(json!({"ev": "Eof", "c": c}));
+						break;
+					}
+					Err(e) => {
+						// No close frame seen.  With pings on, soketto answers each ping from inside `receive`; a pong written after
+						// the server has closed its socket fails (duplex: broken pipe with answers still unread in the pipe) or
+						// triggers a TCP reset that discards what the peer has not read yet - the peer's own doing, not an answer
+						// the server failed to hand to its transport.  Without pings the peer writes nothing on its own and a
+						// stream that ends without a close frame is reported as it is.
+						t3.ev(json!({"ev": if pinging { "EofAbort" } else { "Eof" }, "c": c, "err": format!("{e:?}")}));
 						break;
 					}
 				}
